@@ -145,7 +145,16 @@ CHECKS["C11"] = (
     "GFFAttributes (percent-decoding returns the original, comma = documented value separator, empty -> nan); reserved keys; writer "
     "headers/ordering/FASTA section. F15 (shared-CDS isoforms duplicate CDS row IDs) recorded.",
     _NOTE + " The re-parse legs (io.gff3.parser: gffutils/sqlite3) are outside the claim.", "DESIGN.md §3 C11")
-for _p in ["C10", "C17"]:
+CHECKS["C17"] = (
+    _CH,
+    "Interval lines of gene/RNA features with UNBOUNDED symbolic coordinates rendered through symbolic tokens and read back by an "
+    "independent 5-column reader (1-based inclusive blocks in 5'->3' order, start>end on minus, feature type on the first line only, "
+    "locus tag); locus-tag stepping with a SYMBOLIC step over a two-sequence file; coding genes on a 48-nt genome built from "
+    "start/stop/sense codons, every CDS window x start frame x strand x translation table x flavour closed by the solver: "
+    "5'-partial <=> first codon not a start of the table, 3'-partial <=> not ending in frame on a stop, codon_start = frame+1, pseudo "
+    "<=> in-frame stop, mRNA omitted in the prokaryotic flavour; adjacent CDS blocks merged; seeded output byte-identical.",
+    _NOTE, "DESIGN.md §3 C17")
+for _p in ["C10"]:
     NOT_APPLICABLE[_p] = "check not built yet (build in progress; see DESIGN.md §3 for the planned solver-based check)"
 NOT_APPLICABLE["C12"] = ("GenBank writer cannot emit a feature on the installed Biopython (SeqFeature(strand=) TypeError), the "
                          "parser needs the absent PyVCF module, and the oracle is third-party text parsing (Bio.SeqIO): nothing "
